@@ -27,6 +27,13 @@ struct CapLogger;
 static LOGS: Mutex<Vec<(usize, String)>> = Mutex::new(Vec::new());
 static LOGGER: CapLogger = CapLogger;
 
+/// a panic message is an emission too: it is kept with the captured log records (level 0)
+pub fn record_panic(msg: String) {
+    if let Ok(mut g) = LOGS.try_lock() {
+        g.push((0, format!("PANIC {}", msg)));
+    }
+}
+
 impl Log for CapLogger {
     fn enabled(&self, m: &Metadata) -> bool {
         m.level() <= log::max_level()
@@ -305,9 +312,11 @@ pub fn cmd_serve(st: &mut crate::State, arg: &str) -> String {
             srv.rx.recv().unwrap_or_else(|_| "DEAD".into())
         }
         "scan" => {
-            let srv = match st.srv.as_mut() {
-                Some(s) => s,
-                None => return "NO-SERVER".into(),
+            // without a server (construction panicked) only the captured records are scanned
+            let empty: Vec<Vec<u8>> = Vec::new();
+            let sent_log: &Vec<Vec<u8>> = match st.srv.as_ref() {
+                Some(s) => &s.sent_log,
+                None => &empty,
             };
             let pats: Vec<Vec<u8>> = rest.split(',').filter(|s| !s.is_empty()).map(unhex).collect();
             let logs = LOGS.lock().unwrap();
@@ -324,11 +333,11 @@ pub fn cmd_serve(st: &mut crate::State, arg: &str) -> String {
                 if all_logs.windows(p.len()).any(|w| w == &p[..]) {
                     hits.push(format!("log:{}", k));
                 }
-                if srv.sent_log.iter().any(|d| d.windows(p.len()).any(|w| w == &p[..])) {
+                if sent_log.iter().any(|d| d.windows(p.len()).any(|w| w == &p[..])) {
                     hits.push(format!("dgram:{}", k));
                 }
             }
-            format!("SCAN logs={} logbytes={} dgrams={} hits={}", logs.len(), all_logs.len(), srv.sent_log.len(),
+            format!("SCAN logs={} logbytes={} dgrams={} hits={}", logs.len(), all_logs.len(), sent_log.len(),
                 if hits.is_empty() { "-".to_string() } else { hits.join(",") })
         }
         "logs" => {
